@@ -39,20 +39,28 @@ def fs(*xs):
 
 
 SCOPES = {
-    # (constants of the emission run, what)
+    # (constants of the emission run, what, levels the plans are replayed on).  Every plan is replayed on
+    # _safe_create_replace_file; the entry points above it (which add the persist_tree gate, the suffix, the file
+    # sequence and exception propagation, and cost a lint per replay) get the scopes with one raised fault.
     "quick": [
         (dict(NFiles=1, SkipChoices={fs()}, SuffixChoices={False, True}, MaxRaise=2, AllowDie=True),
-         "one file, up to two raised faults, death anywhere, with and without suffix", LEVELS),
+         "one file, up to two raised faults, death anywhere, with and without suffix", ("safe",)),
+        (dict(NFiles=1, SkipChoices={fs()}, SuffixChoices={False, True}, MaxRaise=1, AllowDie=True),
+         "one file, one raised fault, death anywhere", ("persist",)),
         (dict(NFiles=2, SkipChoices={fs(), fs(1)}, SuffixChoices={False, True}, MaxRaise=1, AllowDie=True),
          "two files (second may follow a skipped first), one raised fault, death anywhere", ("safe", "paths")),
     ],
     "thorough": [
         (dict(NFiles=1, SkipChoices={fs()}, SuffixChoices={False, True}, MaxRaise=3, AllowDie=True),
-         "one file, up to three raised faults, death anywhere", LEVELS),
+         "one file, up to three raised faults, death anywhere", ("safe",)),
+        (dict(NFiles=1, SkipChoices={fs()}, SuffixChoices={False, True}, MaxRaise=2, AllowDie=True),
+         "one file, up to two raised faults, death anywhere", ("persist", "paths")),
         (dict(NFiles=2, SkipChoices={fs(), fs(1), fs(2)}, SuffixChoices={False, True}, MaxRaise=2, AllowDie=True),
-         "two files, any one skipped, two raised faults, death anywhere", ("safe", "paths")),
+         "two files, any one skipped, two raised faults, death anywhere", ("safe",)),
+        (dict(NFiles=2, SkipChoices={fs(), fs(1), fs(2)}, SuffixChoices={False, True}, MaxRaise=1, AllowDie=True),
+         "two files, any one skipped, one raised fault, death anywhere", ("persist", "paths")),
         (dict(NFiles=3, SkipChoices={fs(), fs(2)}, SuffixChoices={False, True}, MaxRaise=1, AllowDie=True),
-         "three files, one raised fault, death anywhere", ("safe", "persist")),
+         "three files, one raised fault, death anywhere", ("safe", "paths")),
     ],
 }
 MODEL = dict(NFiles=2, SkipChoices={fs(), fs(1), fs(2)}, SuffixChoices={False, True}, MaxRaise=2, AllowDie=True)
